@@ -9,7 +9,7 @@ from ..model import AnalysisError, norm
 from ..mutants import Mut
 from ..rules import accum, axis, dim, inv
 from ..rules.defuse import DefUse
-from ..rules.util import callee_name, cfg_of, lin_str, linear, nodes_where
+from ..rules.util import callee_name, cfg_of, lin_str, linear, node_exprs, nodes_where
 
 EXPLANATION = (
     "Decided (necessary structural conditions of C19): (1) DIM: no cols/rows confusion in the allocation helpers of Columns, Pile, Padding, Filler, Overlay and GridFlow; "
@@ -23,6 +23,7 @@ EXPLANATION = (
     ' Added after seed round 3: (5) AXIS - placement options reach parameters of their own axis (align/width/left/right vs valign/height/top/bottom) and no argument carries the name of a different parameter; (6) ACCUM - Columns.column_widths charges / refunds its budget for every column it passes.'
     ' Round 4: (7) the space a relative size is a percentage of is clamped to >= 0 before scaling, in both placement helpers; (8) memo vs child queries (C06.7); (9) Overlay measures a flow top widget at the width top_w_size() renders it with (roles matched through the caller). Round 5: (2, extended) the share stored into the result is the share taken off the remainder; (10) no size expression counts one margin of a pair twice and its partner not at all.'
     ' Round 6: (11) an override of the bottom margin in Overlay.calculate_padding_filler keeps top + height + bottom == maxrow or is made exactly under height > maxrow; (12) Columns.column_widths reserves, credits back and floors weighted columns with one and the same amount.'
+    ' (13) GUARD: a division by a total of weights is made only where that total was tested against 0 (fix 8b4fc37: zero weights only).'
 )
 NOT_DECIDED = "Non-negativity of every child dimension, proportionality within one column, focus-column visibility, min-width interaction beyond the ordering clause, alignment rounding - integer-rounding properties over ranges."
 ASSUMPTIONS = []
@@ -463,6 +464,55 @@ def rule_reserve_credit(ctx: Ctx) -> RuleResult:
     return rr
 
 
+def rule_weight_total_nonzero(ctx: Ctx) -> RuleResult:
+    """'all lists of options incl. zero weights': the containers share spare space as `share * weight / total`, where
+    total is a sum of weights that may all be 0.  Every division by such a total (a local assigned from sum(...) or
+    accumulated with `+=` from 0) is made only where the total was tested: as the test of an enclosing conditional
+    expression, or after a dominating test of it that leaves (raise / return) when it is 0.  Before fix 8b4fc37
+    Columns([('weight', 0, w), (3, w)]) raised ZeroDivisionError from every entry point."""
+    from ..rules.exc import ExcEngine
+
+    p = ctx.p
+    rr = RuleResult("GUARD", "C19.13", "a division by a total of weights is made only where that total was tested against 0", floor=2)
+    for fi in p.functions.values():
+        if fi.module.name not in ("urwid.widget.columns", "urwid.widget.pile", "urwid.widget.grid_flow") or fi.is_lambda:
+            continue
+        totals = set()
+        for n in fi.own_nodes():
+            if isinstance(n, ast.Assign) and isinstance(n.targets[0], ast.Name) and isinstance(n.value, ast.Call) and callee_name(n.value) == "sum":
+                totals.add(n.targets[0].id)
+            if isinstance(n, ast.AugAssign) and isinstance(n.op, ast.Add) and isinstance(n.target, ast.Name) and any(isinstance(a, ast.Assign) and isinstance(a.targets[0], ast.Name) and a.targets[0].id == n.target.id and isinstance(a.value, ast.Constant) and a.value.value == 0 for a in fi.own_nodes()):
+                totals.add(n.target.id)
+        divs = [b for b in fi.own_nodes() if isinstance(b, ast.BinOp) and isinstance(b.op, (ast.Div, ast.FloorDiv)) and isinstance(b.right, ast.Name) and b.right.id in totals]
+        if not divs:
+            continue
+        cfg = cfg_of(fi)
+        parents = {id(ch): par for par in ast.walk(fi.node) for ch in ast.iter_child_nodes(par)}
+        for b in divs:
+            nm = b.right.id
+            ok = False
+            x = b
+            while id(x) in parents and not isinstance(x, ast.stmt):
+                par = parents[id(x)]
+                if isinstance(par, ast.IfExp) and par.body is x and isinstance(par.test, ast.Name) and par.test.id == nm:
+                    ok = True
+                x = par
+            cn = next((y for y in cfg.nodes if any(z is b for e in node_exprs(y) for z in ast.walk(e))), None)
+            if not ok and cn is not None:
+                for t in cfg.nodes:
+                    if t.kind != "test" or not cfg.dominated(cn, [t]):
+                        continue
+                    txt = ast.unparse(t.ast)
+                    if txt in (f"{nm} == 0", f"not {nm}", f"{nm} <= 0") and cn not in cfg.reachable_from_edges([(t, "T")]):
+                        ok = True
+                    if txt in (nm, f"{nm} > 0", f"{nm} != 0") and cn not in ExcEngine._reach_without_edge(cfg, t, "T"):
+                        ok = True
+            rr.inst(f"{short(fi)}: {norm(b, 40)}", True, {"division": norm(b, 60), "total": nm, "tested": ok})
+            if not ok:
+                rr.add(finding("GUARD", fi, b, f"`{norm(b, 50)}` divides by `{nm}`, a total of weights, without a test of it: when every weighted item has weight 0 (allowed: ('weight', 0, w)) the total is 0 and render / rows / keypress raise ZeroDivisionError", construct=f"division by untested weight total {nm}"))
+    return rr
+
+
 def run(ctx: Ctx):
     p = ctx.p
     return [
@@ -480,6 +530,7 @@ def run(ctx: Ctx):
         rule_margin_pairs(ctx),
         rule_margin_override(ctx),
         rule_reserve_credit(ctx),
+        rule_weight_total_nonzero(ctx),
     ]
 
 
@@ -489,12 +540,14 @@ _PD = "urwid/widget/padding.py"
 _FL = "urwid/widget/filler.py"
 _G = "urwid/widget/grid_flow.py"
 MUTANTS = [
+    Mut("columns-divide-by-zero-weight-total", "urwid/widget/columns.py", "Columns.column_widths", "width = max(int(grow * weight / wtotal + 0.5) if wtotal else 0, self.min_width)", "width = max(int(grow * weight / wtotal + 0.5), self.min_width)", "GUARD|widget.columns.Columns.column_widths|division by untested weight total wtotal"),
+    Mut("pile-no-weighted-test", "urwid/widget/pile.py", "Pile.get_item_rows", "        if wtotal == 0:\n            raise PileError(\"No weighted widgets found for Pile treated as a box widget\")\n", "", "GUARD|widget.pile.Pile.get_item_rows|division by untested weight total wtotal"),
     Mut("columns-zero-weight-reserves-nothing", "urwid/widget/columns.py", "Columns.column_widths", "                static_w = self.min_width\n", "                static_w = self.min_width if width else 0\n", "SIB|widget.columns.Columns.column_widths|reservation, credit and floor of weighted columns differ"),
-    Mut("columns-share-floor-one", "urwid/widget/columns.py", "Columns.column_widths", "width = max(int(grow * weight / wtotal + 0.5), self.min_width)", "width = max(int(grow * weight / wtotal + 0.5), 1)", "SIB|widget.columns.Columns.column_widths|reservation, credit and floor of weighted columns differ"),
+    Mut("columns-share-floor-one", "urwid/widget/columns.py", "Columns.column_widths", "width = max(int(grow * weight / wtotal + 0.5) if wtotal else 0, self.min_width)", "width = max(int(grow * weight / wtotal + 0.5) if wtotal else 0, 1)", "SIB|widget.columns.Columns.column_widths|reservation, credit and floor of weighted columns differ"),
     Mut("overlay-flow-override-guard-with-margins", "urwid/widget/overlay.py", "Overlay.calculate_padding_filler", "            if height > maxrow:  # flow widget rendered too large", "            if height > maxrow - self.top - self.bottom:  # flow widget rendered too large", "PAIR|widget.overlay.Overlay.calculate_padding_filler|bottom override without the fill identity"),
     Mut("twin-overlay-flow-override-with-top", "urwid/widget/overlay.py", "Overlay.calculate_padding_filler", "            if height > maxrow:  # flow widget rendered too large\n                bottom = maxrow - height", "            if height > maxrow - top - bottom:  # flow widget rendered too large\n                bottom = maxrow - top - height", twin=True),
     Mut("padding-pack-left-margin-twice", _PD, "Padding.padding_values", "maxwidth = max(maxcol - self.left - self.right, self.min_width or 0)", "maxwidth = max(maxcol - self.left - self.left, self.min_width or 0)", "PAIR|widget.padding.Padding.padding_values"),
-    Mut("columns-clamp-after-subtraction", _C, "Columns.column_widths", "                width = max(int(grow * weight / wtotal + 0.5), self.min_width)\n\n                widths[i] = width\n", "                width = int(grow * weight / wtotal + 0.5)\n\n                widths[i] = max(width, self.min_width)\n", "ORDER|widget.columns.Columns.column_widths|handed out"),
+    Mut("columns-clamp-after-subtraction", _C, "Columns.column_widths", "                width = max(int(grow * weight / wtotal + 0.5) if wtotal else 0, self.min_width)\n\n                widths[i] = width\n", "                width = int(grow * weight / wtotal + 0.5) if wtotal else 0\n\n                widths[i] = max(width, self.min_width)\n", "ORDER|widget.columns.Columns.column_widths|handed out"),
     Mut("overlay-flow-rows-at-full-width", "urwid/widget/overlay.py", "Overlay.calculate_padding_filler", "self.top_w.rows((maxcol - left - right,), focus=focus)", "self.top_w.rows((maxcol,), focus=focus)", "SIB|widget.overlay.Overlay.calculate_padding_filler"),
     Mut("twin-overlay-flow-rows-spelling", "urwid/widget/overlay.py", "Overlay.calculate_padding_filler", "self.top_w.rows((maxcol - left - right,), focus=focus)", "self.top_w.rows((maxcol - (left + right),), focus=focus)", twin=True),
     Mut("relative-height-from-negative-space", "urwid/widget/filler.py", "calculate_top_bottom_filler", "maxheight = max(maxrow - top - bottom, 0)", "maxheight = maxrow - top - bottom", "PASS|widget.filler.calculate_top_bottom_filler"),
